@@ -939,6 +939,9 @@ pub const C03P: ConcCheck = ConcCheck { sub: "refs-probe", mix: Mix::Readers, ma
 pub const C03L: ConcCheck = ConcCheck { sub: "refs-long", mix: Mix::Long, max_threads: 8, max_ops: 10, ..C03 };
 pub const C03M: ConcCheck = ConcCheck { sub: "refs-long-readers", mix: Mix::LongReaders, max_threads: 5, max_ops: 8, ..C03 };
 pub const C03H: ConcCheck = ConcCheck { sub: "refs-helpers", mix: Mix::Helpers, max_threads: 4, max_ops: 3, ..C03 };
+pub const C03A: ConcCheck = ConcCheck { sub: "refs-retain", mix: Mix::Retain, ..C03 };
+pub const C03D: ConcCheck = ConcCheck { sub: "refs-drain", mix: Mix::Drain, ..C03 };
+pub const C03U: ConcCheck = ConcCheck { sub: "refs-compute", mix: Mix::Compute, ..C03 };
 pub const C03T: ConcCheck = ConcCheck { sub: "refs-treemove", mix: Mix::TreeMove, max_threads: 3, max_ops: 3, ..C03 };
 
 const C03_OR: crate::seq::Oracles = crate::seq::Oracles { returns: true, quiescent: false, ledger: true, canary: true, capacity: false, cmp_bound: false, growth: false };
@@ -1002,6 +1005,9 @@ fn c03_shard(ctx: &Ctx, out: &mut ShardOut) {
     C03L.run(ctx, &pool, 7, ctx.share(ctx.by_tier(64, 1_500)) as u32, &lb, out);
     C03M.run(ctx, &pool, 8, ctx.share(ctx.by_tier(64, 1_500)) as u32, &lb, out);
     C03T.run(ctx, &pool, 9, ctx.share(ctx.by_tier(96, 1_000)) as u32, &b, out);
+    C03A.run(ctx, &pool, 11, ctx.share(ctx.by_tier(64, 1_000)) as u32, &b, out);
+    C03D.run(ctx, &pool, 12, ctx.share(ctx.by_tier(64, 1_000)) as u32, &b, out);
+    C03U.run(ctx, &pool, 13, ctx.share(ctx.by_tier(64, 1_000)) as u32, &b, out);
     C03H.run(ctx, &pool, 10, ctx.share(ctx.by_tier(64, 800)) as u32, &super::concchecks::helpers_budget(ctx.tier, ctx.shard_seed(98)), out);
     let _ = crate::alloc::drain_and_check();
     crate::alloc::enable(false);
@@ -1016,6 +1022,9 @@ fn c03_replay(sub: &str, case: &Value) -> Result<(), CaseFail> {
         }
         "refs-perkey" => C03K.replay(&Pool::new(), case, &b),
         "refs-treemove" => C03T.replay(&Pool::new(), case, &b),
+        "refs-retain" => C03A.replay(&Pool::new(), case, &b),
+        "refs-drain" => C03D.replay(&Pool::new(), case, &b),
+        "refs-compute" => C03U.replay(&Pool::new(), case, &b),
         "refs-helpers" => C03H.replay(&Pool::new(), case, &super::concchecks::helpers_budget(Tier::Thorough, 1)),
         "refs-resize" => C03R.replay(&Pool::new(), case, &b),
         "refs-probe" => C03P.replay(&Pool::new(), case, &probe_budget(Tier::Thorough, 1)),
@@ -1055,6 +1064,9 @@ pub const C15R: ConcCheck = ConcCheck { sub: "hb-resize", mix: Mix::Resize, ..C1
 pub const C15I: ConcCheck = ConcCheck { sub: "hb-readers", mix: Mix::Readers, ..C15 };
 pub const C15L: ConcCheck = ConcCheck { sub: "hb-long", mix: Mix::Long, max_threads: 8, max_ops: 10, ..C15 };
 pub const C15T: ConcCheck = ConcCheck { sub: "hb-treemove", mix: Mix::TreeMove, ..C15 };
+pub const C15A: ConcCheck = ConcCheck { sub: "hb-retain", mix: Mix::Retain, ..C15 };
+pub const C15D: ConcCheck = ConcCheck { sub: "hb-drain", mix: Mix::Drain, ..C15 };
+pub const C15U: ConcCheck = ConcCheck { sub: "hb-compute", mix: Mix::Compute, ..C15 };
 pub const C15H: ConcCheck = ConcCheck { sub: "hb-helpers", mix: Mix::Helpers, max_threads: 4, ..C15 };
 
 fn c15_shard(ctx: &Ctx, out: &mut ShardOut) {
@@ -1066,6 +1078,9 @@ fn c15_shard(ctx: &Ctx, out: &mut ShardOut) {
     let lb = Budget { single: 0, double: 0, coarse2: 0, tapes: ctx.by_tier(16, 100) as usize, tape_seed: ctx.shard_seed(96), triple: 0 };
     C15L.run(ctx, &pool, 18, ctx.share(ctx.by_tier(64, 1_500)) as u32, &lb, out);
     C15T.run(ctx, &pool, 19, ctx.share(ctx.by_tier(320, 6_000)) as u32, &b, out);
+    C15A.run(ctx, &pool, 21, ctx.share(ctx.by_tier(128, 3_000)) as u32, &b, out);
+    C15D.run(ctx, &pool, 22, ctx.share(ctx.by_tier(96, 2_000)) as u32, &b, out);
+    C15U.run(ctx, &pool, 23, ctx.share(ctx.by_tier(128, 3_000)) as u32, &b, out);
     C15H.run(ctx, &pool, 20, ctx.share(ctx.by_tier(96, 1_500)) as u32, &super::concchecks::helpers_budget(ctx.tier, ctx.shard_seed(99)), out);
 }
 fn c15_replay(sub: &str, case: &Value) -> Result<(), CaseFail> {
@@ -1074,6 +1089,9 @@ fn c15_replay(sub: &str, case: &Value) -> Result<(), CaseFail> {
         "hb-resize" => C15R.replay(&Pool::new(), case, &b),
         "hb-readers" => C15I.replay(&Pool::new(), case, &b),
         "hb-treemove" => C15T.replay(&Pool::new(), case, &b),
+        "hb-retain" => C15A.replay(&Pool::new(), case, &b),
+        "hb-drain" => C15D.replay(&Pool::new(), case, &b),
+        "hb-compute" => C15U.replay(&Pool::new(), case, &b),
         "hb-helpers" => C15H.replay(&Pool::new(), case, &super::concchecks::helpers_budget(Tier::Thorough, 1)),
         "hb-long" => C15L.replay(&Pool::new(), case, &Budget { single: 0, double: 0, coarse2: 0, tapes: 100, tape_seed: 1, triple: 0 }),
         _ => C15.replay(&Pool::new(), case, &b),
